@@ -577,6 +577,10 @@ func (en *Env) evalCall(x ECall) Term {
 			en.fail("fresh() needs an old state")
 		}
 		return Term{and(not(app("=", a[0].S, "0")), not(app("select", c.heapGet(en.old, "alloc"), a[0].S))), SBool, tBool}
+	case "asbool": // the bool held by an interface value (meaningful when typeis(x, "bool"))
+		a := args()
+		c.ss.NeedBox(SBool)
+		return Term{app("unbox!Bool", a[0].S), SBool, tBool}
 	case "typeis":
 		// typeis(x, "pkg.T")
 		a := en.eval(x.Args[0])
@@ -588,7 +592,7 @@ func (en *Env) evalCall(x ECall) Term {
 		if err != nil {
 			en.fail("%v", err)
 		}
-		return Term{app("=", app("typeof!", a.S), intLit(int64(c.ss.TypeID(ty)))), SBool, tBool}
+		return Term{and(not(app("=", a.S, "0")), app("=", app("typeof!", a.S), intLit(int64(c.ss.TypeID(ty))))), SBool, tBool}
 	}
 	// user-defined spec / pred
 	sd := c.eng.cs.LookupSpec(en.pkg, x.Fun)
